@@ -50,7 +50,10 @@ func childStopUnderLoad(dir string, start, count, closeAfter int) {
 			ssid, ch := chanOf(i)
 			m := message.New(ssid, ch, nil)
 			m.Payload = payloadOf(i, len(m.ID))
-			m.TTL = uint32(3600 + i)
+			m.TTL = ttlOf(i)
+			if isOld(i) {
+				m.ID.SetTime(time.Now().Unix() - 40*86400)
+			}
 			say("TRY %d %s %d", i, hex.EncodeToString(m.ID), len(m.Payload))
 			if err := s.Store(m); err == nil {
 				say("ACK %d", i)
@@ -78,6 +81,17 @@ func chanOf(i int) (message.Ssid, []byte) {
 	}
 	return message.Ssid{7, uint32(11 + i%3)}, []byte(fmt.Sprintf("ch%d/", i%3))
 }
+
+// some messages are old - published 40 days ago, longer than the default retention of retained
+// messages - with a ttl of one year: they are as live as the others
+func isOld(i int) bool { return i%17 == 3 }
+func ttlOf(i int) uint32 {
+	if isOld(i) {
+		return 365 * 86400
+	}
+	return uint32(3600 + i)
+}
+
 func payloadOf(i, idLen int) []byte {
 	n := 1 + (i*37)%48
 	if isBig(i) {
@@ -106,7 +120,10 @@ func child(dir string, start, count int, clean bool) {
 		m := message.New(ssid, ch, nil)
 		m.Payload = payloadOf(i, len(m.ID))
 		pl := m.Payload
-		m.TTL = uint32(3600 + i)
+		m.TTL = ttlOf(i)
+		if isOld(i) {
+			m.ID.SetTime(time.Now().Unix() - 40*86400)
+		}
 		fmt.Fprintf(out, "TRY %d %s %d\n", i, hex.EncodeToString(m.ID), len(pl))
 		out.Flush()
 		if err := s.Store(m); err != nil {
@@ -127,7 +144,7 @@ func child(dir string, start, count int, clean bool) {
 
 func expected(i int, id []byte) message.Message {
 	_, ch := chanOf(i)
-	return message.Message{ID: id, Channel: ch, Payload: payloadOf(i, len(id)), TTL: uint32(3600 + i)}
+	return message.Message{ID: id, Channel: ch, Payload: payloadOf(i, len(id)), TTL: ttlOf(i)}
 }
 
 func main() {
@@ -271,5 +288,5 @@ func main() {
 		}
 		sh.Add(vlib.App("CKill", vlib.List(cycleTerms)), map[string]interface{}{"op": "kill/restart cycles", "cycles": cyclesPer, "kills": kills, "clean_stops": cleans, "messages": next}, "kill-cycles", true)
 	}
-	sh.Finish("per state directory: cycles of a child process storing 10-100 messages (acknowledged one by one over a pipe), killed with SIGKILL after a random number of store attempts plus 0-300 us (so also inside a store call) or stopped cleanly (also while the publisher is still storing), in a third of the cycles a second store is opened on the directory while the child is alive (must be refused); now and then a message of exactly the largest size a query can return (65536 bytes, or up to 8 less); then the directory is reopened and every channel queried (the channel of the largest messages page by page); all cycles reuse the directory; non-trivial: all")
+	sh.Finish("per state directory: cycles of a child process storing 10-100 messages (acknowledged one by one over a pipe), killed with SIGKILL after a random number of store attempts plus 0-300 us (so also inside a store call) or stopped cleanly (also while the publisher is still storing), in a third of the cycles a second store is opened on the directory while the child is alive (must be refused); some messages 40 days old with a ttl of one year; now and then a message of exactly the largest size a query can return (65536 bytes, or up to 8 less); then the directory is reopened and every channel queried (the channel of the largest messages page by page); all cycles reuse the directory; non-trivial: all")
 }
